@@ -246,6 +246,12 @@ theorem implicify_keeps_heavy_atoms (m m' : Mol) (cnt : Nat) (fx : List Nat) (h 
     (hnd : m.ids.Nodup) : heavyAtoms m' = heavyAtoms m :=
   implicify_heavy m m' cnt fx h hnd
 
+/-- and it conserves the net charge when the explicit plain hydrogens it may remove are neutral (the code never looks at the
+    charge of a hydrogen it removes: a drawn `[H+]` bonded to an atom would take its charge with it) -/
+theorem implicify_conserves_charge (m m' : Mol) (cnt : Nat) (fx : List Nat) (h : implicify m = .ok (m', cnt, fx))
+    (hnd : m.ids.Nodup) (hneutral : ∀ p ∈ m.atoms, isPlainH p.2 = true → p.2.charge = 0) : netCharge m' = netCharge m :=
+  implicify_charge m m' cnt fx h hnd hneutral
+
 /-- **`implicify_hydrogens ∘ explicify_hydrogens = id`** (full statement, molecule level). For every molecule `m` that is
     `Consistent` — numbers unique, neighbour dicts keyed like the atoms, no explicit hydrogen atom, no aromatic bond, and every
     stored hydrogen count is the one `calc_implicit` (C04 model) gives — making the hydrogens explicit and implicit again
